@@ -933,7 +933,7 @@ func c01PureHeaders(r *hx.Result, rng *hx.Rng, n int) {
 }
 
 func runC01(r *hx.Result, rng *hx.Rng, thorough bool, replay string) error {
-	r.Rule = "cases: (a) random TxHeaders (all field widths, metadata, versions incl. unsupported) -> Alh bytes; (b) real stores (header v0/v1, metadata, embedded values) with 1..N txs: DualProof/DualProofV2/LinearProof for all or sampled (s,t), verified by the real verifiers and by the model, followed by a mutation stream (header fields with recomputed Alh, every sub-proof, ids, nil parts, foreign proofs, swapped sides) and the forged-last-leaf attack template built from a scratch ahtree; (c) entry digests + entry inclusion proofs incl. altered entries. Non-trivial = mutated or accepted call; distinct by call text."
+	r.Rule = "cases: (a) random TxHeaders (all field widths, metadata, versions incl. unsupported) -> Alh bytes; (b) real stores (header v0/v1, metadata, embedded values) with 1..N txs: DualProof/DualProofV2/LinearProof for all or sampled (s,t), verified by the real verifiers and by the model, followed by a mutation stream (header fields with recomputed Alh, every sub-proof, ids, nil parts, foreign proofs, swapped sides) and the forged-last-leaf attack template built from a scratch ahtree; (c) entry digests + entry inclusion proofs incl. altered entries; (d) the real pkg/client over bufconn with a man-in-the-middle interceptor (key-value verified calls); (e) pkg/client VerifyRow on generated tables of every column type (NULL / non-NULL, composite keys, rewritten rows, added/dropped columns, header version 0 and 1 databases) with tampered rows and tampered VerifiableSQLEntry responses, plus the remaining exported Verified* calls. Non-trivial = mutated or accepted call; distinct by call text."
 	c01PureHeaders(r, rng.Fork(), 400)
 	exN, lives, lifeN, probes := 14, 6, 120, 25
 	if thorough {
@@ -980,6 +980,19 @@ func runC01(r *hx.Result, rng *hx.Rng, thorough bool, replay string) error {
 	for k := 0; k < svcRuns; k++ {
 		if err := c01Service(r, rng.Fork(), svcOps, k%2 == 0); err != nil {
 			return fmt.Errorf("service-level: %w", err)
+		}
+	}
+	// SQL side of the verified client API (pkg/client VerifyRow) against the real server (c01sql.go)
+	sqlRuns, sqlOps := 3, 150
+	if thorough {
+		sqlRuns, sqlOps = 12, 500
+	}
+	for k := 0; k < sqlRuns; k++ {
+		if err := c01SQLService(r, rng.Fork(), sqlOps, k%2 == 0, k%3 == 2); err != nil {
+			return fmt.Errorf("service-level sql: %w", err)
+		}
+		if err := r.Flush(); err != nil {
+			return err
 		}
 	}
 	return nil
